@@ -183,6 +183,46 @@ def run(tier: str) -> int:
                     except Exception as e:
                         rep.violation(f"pruned:{m}:{kind}={q}", f"AtomGrid.from_pruned raised {type(e).__name__}: {e}")
 
+        # preset atomic grids: the shipped preset tables ask, per radial sector, for a number of points; each shell
+        # must carry the grid the rule prescribes for that size IN THE REQUESTED METHOD.  The radial points are put
+        # at the midpoints of the sectors (one below the first and one above the last boundary), so which sector a
+        # shell belongs to is not in question here (that is C05's subject).
+        from importlib.resources import files as _files
+        presets = ["coarse", "sg_1", "sg_0"] if tier == "quick" else \
+            ["coarse", "medium", "fine", "veryfine", "ultrafine", "insane", "sg_0", "sg_1", "sg_2", "sg_3", "g1", "g4", "g7"]
+        for pre in presets:
+            try:
+                data = np.load(_files("grid.data.prune_grid").joinpath(f"prune_grid_{pre}.npz"))
+            except Exception as e:
+                rep.violation(f"preset:{pre}:file", f"preset table unreadable: {type(e).__name__}: {e}")
+                continue
+            zs = sorted(int(k.split("_")[0]) for k in data.files if k.endswith("_npt"))
+            pick = [z for z in (1, 8, 20) if z in zs] if tier == "quick" else rng.sample(zs, min(8, len(zs)))
+            for z in pick:
+                rad, npt = np.asarray(data[f"{z}_rad"]), np.asarray(data[f"{z}_npt"]).astype(int)
+                if np.issubdtype(rad.dtype, np.integer) and len(rad) == len(npt):   # sector = number of shells
+                    asked = [int(npt[i]) for i in range(len(rad)) for _ in range(int(rad[i]))]
+                    rpts = 0.05 * np.arange(1, len(asked) + 1)
+                elif len(npt) == len(rad) + 1:                                       # sector = radius interval
+                    asked = npt.tolist()
+                    rpts = np.concatenate([[rad[0] / 2], (rad[:-1] + rad[1:]) / 2, [rad[-1] * 1.5]])
+                else:
+                    continue
+                rg = OneDGrid(rpts, np.ones(len(rpts)), (0, np.inf))
+                for m, t in tabs.items():
+                    if max(asked) > max(k for k, _ in t["size"]):
+                        continue
+                    try:
+                        g = AtomGrid.from_preset(atnum=z, preset=pre, rgrid=rg, method=m)
+                        got, sizes = np.asarray(g.degrees).tolist(), np.diff(np.asarray(g.indices)).tolist()
+                        if len(got) != len(asked):
+                            rep.violation(f"preset:{m}:{pre}:Z={z}:shells", f"{len(got)} shells for {len(asked)} radial points")
+                            continue
+                        for a, d, sz in zip(asked, got, sizes):
+                            put(m, "size", a, ("preset", d, sz))
+                    except Exception as e:
+                        rep.violation(f"preset:{m}:{pre}:Z={z}", f"AtomGrid.from_preset raised {type(e).__name__}: {e}")
+
     with open(wd / "obs_angular.json", "w") as f:
         json.dump({"obs": obs, "neg": neg}, f)
     extract.write_tables_angular(wd, tabs, "obs_angular.json")
